@@ -10,7 +10,8 @@ from harness.props import C13
 
 ID = "C14"
 PROPS_FILE = "Props/C14.v"
-COQ_IMPORTS = "From SA Require Import Model.BootHarness."
+COQ_IMPORTS = ("From SA Require Import Model.BootHarness.\nFrom SA Require Model.FloatQuantile.\n"
+               "From Coq Require Import Floats.PrimFloat.")
 GEN_AVAILABLE = set()
 RULE = ("Scores / a Scores subclass overriding tpr / GroupScores (2-3 groups) with small dyadic scores; metrics by name "
         "(tpr, fpr, fnr, tnr, eer, group_tpr, group_fpr) and callables with scalar / vector / matrix / integer output and "
